@@ -56,7 +56,7 @@ def service_layouts( ctx ):
     return ctx.cached( 'service_layouts', build )
 
 
-@rule( 'L-AGREE', props=( 'C01', 'C14' ), floor=40 )
+@rule( 'L-AGREE', props=( 'C01', 'C14' ), floor=24 )
 def l_agree( ctx ):
     """for every registered service: each layout the parser accepts is one the producer emits, and each layout the producer emits (under recognised guards) is one the parser accepts - same order, width, signedness, byte order, data path, pads, guards"""
     res = Result( 'L-AGREE' )
